@@ -1,32 +1,31 @@
 //@ note: scratch experiments (not registered)
 use crate::stubs::*;
-use grafeo_common::types::{LogicalType, Value};
-use grafeo_core::execution::{DataChunk, ValueVector};
-use grafeo_core::execution::operators::{LimitOperator, Operator, OperatorResult, SkipOperator};
-
-/// child producing chunks of sizes [2,1] with values 0,1 | 2
-struct Child { step: u8 }
-impl Operator for Child {
-    fn next(&mut self) -> OperatorResult {
-        self.step += 1;
-        match self.step {
-            1 => { let mut c = ValueVector::with_type(LogicalType::Int64); c.push_int64(0); c.push_int64(1); Ok(Some(DataChunk::new(vec![c]))) }
-            2 => { let mut c = ValueVector::with_type(LogicalType::Int64); c.push_int64(2); Ok(Some(DataChunk::new(vec![c]))) }
-            _ => Ok(None),
-        }
-    }
-    fn reset(&mut self) { self.step = 0; }
-    fn name(&self) -> &'static str { "Child" }
-}
-#[kani::proof]
-#[kani::unwind(6)]
-#[kani::stub(alloc::fmt::format, fmt_stub)]
-fn lim1() {
-    let limit: usize = kani::any(); kani::assume(limit <= 5);
-    let mut op = LimitOperator::new(Box::new(Child { step: 0 }), limit, vec![LogicalType::Int64]);
-    let mut total = 0usize; let mut i = 0;
-    while i < 4 { match op.next() { Ok(Some(ch)) => { total += ch.row_count(); std::mem::forget(ch); } _ => {} } i += 1; }
-    assert!(total == if limit < 3 { limit } else { 3 });
-    kani::cover!(limit == 1 && total == 1);
-    std::mem::forget(op);
-}
+use grafeo_core::graph::lpg::LpgStore;
+use grafeo_engine::transaction::TransactionManager;
+use grafeo_engine::Session;
+use std::sync::Arc;
+macro_rules! ex { ($name:ident, $body:block) => {
+    #[kani::proof]
+    #[kani::unwind(5)]
+    #[kani::stub(parking_lot::RawRwLock::lock_exclusive_slow, lk_slow)]
+    #[kani::stub(parking_lot::RawRwLock::lock_shared_slow, lk_sh_slow)]
+    #[kani::stub(parking_lot::RawRwLock::unlock_exclusive_slow, ulk_slow)]
+    #[kani::stub(parking_lot::RawRwLock::unlock_shared_slow, ulk_sh_slow)]
+    #[kani::stub(parking_lot::RawMutex::lock_slow, mx_lock_slow)]
+    #[kani::stub(parking_lot::RawMutex::unlock_slow, mx_unlock_slow)]
+    #[kani::stub(alloc::fmt::format, fmt_stub)]
+    #[kani::stub(std::hash::RandomState::new, std_rs_new)]
+    #[kani::stub(ahash::RandomState::new, ahash_rs_new)]
+    fn $name() $body
+} }
+ex!(s1_session_create_get, {
+    let store = Arc::new(LpgStore::new());
+    let txm = Arc::new(TransactionManager::new());
+    let mut w = Session::verif_new(Arc::clone(&store), Arc::clone(&txm));
+    let r = w.begin_tx(); assert!(r.is_ok()); std::mem::forget(r);
+    let n = w.create_node(&[]);
+    let g = w.get_node(n);
+    assert!(g.is_some());
+    kani::cover!(true);
+    std::mem::forget((g, w, store, txm));
+});
